@@ -56,56 +56,67 @@ def alpha(cfg, crate, rep):
                found=why if acc is None else ("accepts %d byte values via %s; missing %s extra %s" % (len(acc), why, sorted(chr(x) for x in want - acc)[:8], sorted(chr(x) for x in acc - want)[:8])))
         if acc is not None:
             rep.sample({"rule": "C13.alpha", "type": ty, "admitted_bytes": len(acc), "via": why})
-    # BmpString
-    fn = "string::BmpString::from_utf16be"
-    rep.fn(fn)
-    b = crate.body(fn)
-    ms = [n for n in common.hir_walk(b["hir"]) if n["k"] == "Match" and n["src"] == "Normal"]
-    ok = False
-    found = None
-    if len(ms) == 1 and len(ms[0]["arms"]) == 2:
-        a0, a1 = ms[0]["arms"]
-        p = a0["pat"]
-        is_ok = (p.get("ctor_of") or p.get("def")) == "Ok" and a0.get("guard") is not None
-        g = a0.get("guard") or {}
-        bound = None
-        if g.get("k") == "Binary" and g["op"] == "<":
-            I = Interp(crate)
-            fr = {}
-            I.bindpat(p, interp_param("item"), fr)
-            l = I.ev(g["l"], fr)
-            bound = I.concrete(I.ev(g["r"], fr))
-            lhs_ok = places(l) == {"item#Ok.0"} and not [r for r in roots(l) if r.startswith(("call:", "op:"))]
-        else:
-            lhs_ok = False
-        accept_unit = a0["body"]["k"] == "Tup"
-        reject = a1["pat"]["k"] == "Wild" and any(n["k"] == "Ret" for n in common.hir_walk(a1["body"]))
-        found = "Ok(c) if c < %s => accept; _ => reject" % bound
-        ok = is_ok and lhs_ok and bound == 0xFFFF and accept_unit and reject
-    loops = [n for n in common.hir_walk(b["hir"]) if n["k"] == "For"]
-    dec = len(loops) == 1 and any((x.get("callee") or "").endswith("decode_utf16") for x in common.hir_walk(loops[0]["iter"]))
-    be = any((x.get("callee") or "").endswith("u16>::from_be_bytes") for x in common.hir_walk(b["hir"]))
-    rep.ob("C13.alpha", "%s|BmpString" % cfg, ok and dec and be, "BmpString admits exactly the UTF-16BE encodings of U+0000..=U+FFFE (every decode_utf16 item must be Ok(c) with c < 0xFFFF; lone/paired surrogates rejected)", found=found)
-    # UniversalString
-    fn = "string::UniversalString::from_utf32be"
-    rep.fn(fn)
-    I, out, fl = fails_of(crate, fn)
-    loopf = [x for x in fl if any(a[0] == "opaque" and "in-loop" in a[1] for a in F.atoms(x[0]))]
-    ok = False
-    if len(loopf) == 1:
-        ats = [a for a in F.atoms(loopf[0][0]) if a[0] == "some"]
-        ok = len(ats) == 1 and ats[0][1].startswith("std::char::from_u32(") and "u32>::from_be_bytes" in ats[0][1] and "chunks_exact(vec, 4)" in ats[0][1] and F.evalf(loopf[0][0], {a: (a[0] == "opaque") for a in F.atoms(loopf[0][0])})
-    rep.ob("C13.alpha", "%s|UniversalString" % cfg, ok, "UniversalString admits exactly the UTF-32BE encodings of Unicode scalar values (char::from_u32 is Some for every unit)", found=[F.show(x[0])[:200] for x in loopf])
-    # length checks
-    for fn, k in (("string::BmpString::from_utf16be", 2), ("string::UniversalString::from_utf32be", 4)):
-        I, out, fl = fails_of(crate, fn)
-        lens = [x for x in fl if not any(a[0] == "opaque" for a in F.atoms(x[0]))]
+    # BmpString / UniversalString: per-unit predicates over the decoded units, and the length tests, from the
+    # normalised rejection terms (any spelling: loop with early return, all(..), any(..), matches!, match with guard)
+    for fn, k, unit in (("string::BmpString::from_utf16be", 2, "u16"), ("string::UniversalString::from_utf32be", 4, "u32")):
+        rep.fn(fn)
+        terms, why, I, out = bytepred.rejection_terms(crate, fn)
+        ty = "BmpString" if k == 2 else "UniversalString"
+        if terms is None:
+            rep.fail("C13.alpha", "%s|%s" % (cfg, ty), "rejection formula not extractable: %s" % why)
+            rep.fail("C13.len", "%s|%s" % (cfg, fn), "rejection formula not extractable: %s" % why)
+            continue
+        foralls = [x for x in terms if x[0] == "forall"]
+        plains = [x[1] for x in terms if x[0] == "plain"]
+        # length: exactly one plain term, `len(vec) % k != 0`
+        ok_len = False
+        if len(plains) == 1:
+            ats = F.atoms(plains[0])
+            if len(ats) == 1 and ats[0][0] == "eq" and ("len(vec) %% %d" % k) in str(ats[0]) and "0" in (ats[0][1], ats[0][2]):
+                ok_len = F.evalf(plains[0], {ats[0]: False}) and not F.evalf(plains[0], {ats[0]: True})
+        rep.ob("C13.len", "%s|%s" % (cfg, fn), ok_len, "byte length not divisible by %d is rejected (and that is the only whole-input test)" % k, found=[F.show(x)[:160] for x in plains])
         ok = False
-        if len(lens) == 1:
-            ats = F.atoms(lens[0][0])
-            ok = len(ats) == 1 and ats[0][0] == "eq" and ("len(vec) %% %d" % k) in str(ats[0]) and "0" in (ats[0][1], ats[0][2]) and F.evalf(lens[0][0], {ats[0]: False}) and not F.evalf(lens[0][0], {ats[0]: True})
-        rep.ob("C13.len", "%s|%s" % (cfg, fn), ok, "byte length not divisible by %d is rejected" % k, found=[F.show(x[0]) for x in lens])
+        found = None
+        if len(foralls) == 1:
+            _, src, body, elem = foralls[0]
+            cs = calls_of(src)
+            el = core(elem).r()
+            found = "every unit of %s: %s" % (sorted(c.split("::")[-1] for c in cs), F.show(body).replace(el, "unit")[:200])
+            src_ok = places(src) == {"vec"} and any(c.endswith("%s>::from_be_bytes" % unit) for c in cs) and any(c.endswith("chunks_exact") for c in cs) \
+                and any(isinstance(core(a_[1]), Const) and core(a_[1]).v == k for c_, a_, n_, cd, f_ in I.calls if c_.endswith("chunks_exact") and len(a_) > 1)
+            ats = F.atoms(body)
+            if k == 2:
+                src_ok = src_ok and any(c.endswith("decode_utf16") for c in cs)
+                # acceptance of a unit  <=>  it decoded (Ok) and the scalar is <= 0xFFFE
+                def cls(a):
+                    if a[0] == "variant" and a[1] == el and a[2] in ("Ok", "Err"):
+                        return ("ok", a[2] == "Ok")
+                    ub = common.upper_bound(I, a)
+                    if ub and ub[0] == el + "#Ok.0" and ub[1] == 0xFFFE:
+                        return ("bmp", True)
+                    return None
+                kinds = {a: cls(a) for a in ats}
+                if all(v is not None for v in kinds.values()) and {v[0] for v in kinds.values()} == {"ok", "bmp"}:
+                    ok = src_ok
+                    for okv in (False, True):
+                        for bmp in (False, True):
+                            asg = {a: ((okv if kd[0] == "ok" else bmp) == kd[1]) for a, kd in kinds.items()}
+                            if F.evalf(body, asg) != (okv and bmp):
+                                ok = False
+                else:
+                    found += " (unrecognised tests: %s)" % [F.show_atom(a)[-60:] for a, v in kinds.items() if v is None]
+            else:
+                # acceptance of a unit  <=>  char::from_u32(unit) is Some
+                src_ok = src_ok  # the unit is the mapped element (u32::from_be_bytes of a 4-byte chunk)
+                if len(ats) == 1 and ats[0][0] == "some" and ats[0][1] in ("std::char::from_u32(%s)" % el, "std::char::methods::<impl char>::from_u32(%s)" % el):
+                    ok = src_ok and F.evalf(body, {ats[0]: True}) and not F.evalf(body, {ats[0]: False})
+        text = ("BmpString admits exactly the UTF-16BE encodings of U+0000..=U+FFFE (every decode_utf16 item must be Ok(c) with c < 0xFFFF; lone/paired surrogates rejected)" if k == 2 else
+                "UniversalString admits exactly the UTF-32BE encodings of Unicode scalar values (char::from_u32 is Some for every unit)")
+        rep.ob("C13.alpha", "%s|%s" % (cfg, ty), ok, text, found=found or [str(x)[:120] for x in terms])
         v = core(out["value"])
+        if isinstance(v, PhiV):
+            oks = [core(x) for c_, x in v.alts if isinstance(core(x), StructV) and core(x).variant == "Ok"]
+            v = oks[0] if len(oks) == 1 else v
         stores = isinstance(v, StructV) and v.variant == "Ok" and places(v) == {"vec"} and not [r for r in roots(v) if r.startswith("op:")]
         rep.ob("C13.enc", "%s|%s|stores-input" % (cfg, fn), stores, "the accepted bytes are stored unchanged", found=v.r()[:120])
 
